@@ -25,11 +25,12 @@ def recorder(name, ret=None):
 RECV = [None]
 
 
-def fitted_forecaster(B, clsname="NaiveForecaster", module="sktime.forecasting.naive", abstract_methods=("fit",), free_cutoff=False):
+def fitted_forecaster(B, clsname="NaiveForecaster", module="sktime.forecasting.naive", abstract_methods=("fit",), free_cutoff=False,
+                      ctor_args=()):
     """a fitted forecaster of a concrete class whose listed methods are abstract (recorded in the ghost trace)"""
     I = B.I
     ok, cls = I.mod_global(I.src.module(module), clsname)
-    obj = I.instantiate(cls, [], {})
+    obj = I.instantiate(cls, list(ctor_args), {})
     y = sym_series(B, "y_old", n=B.int("n_old", 1), l0=B.int("l0"))
     cutoff = ops.simp(Z(y.index.closed[0]) + Z(y.index.len) - 1)
     if free_cutoff:
@@ -204,10 +205,14 @@ def _dt_inputs(B, case):
     obj.attrs.update({"forecaster_": fitted, "_is_fitted": case != "unfitted"})
     if case == "unfitted":
         obj.attrs["forecaster_"] = None
-    return {"self": obj, "Z": sym_series(B, "z"), "X": None, "update_params": B.bool("update_params")}
+    zz = sym_series(B, "z", nonempty=(case != "unfitted-maybe-empty"))
+    if case == "unfitted-maybe-empty":
+        obj.attrs["_is_fitted"] = False
+        obj.attrs["forecaster_"] = None
+    return {"self": obj, "Z": zz, "X": None, "update_params": B.bool("update_params")}
 
 
-contract(f"{DT}::Detrender.update", "C10,C04", cases=["fitted", "unfitted"], inputs=_dt_inputs,
+contract(f"{DT}::Detrender.update", "C10,C04", cases=["fitted", "unfitted", "unfitted-maybe-empty"], inputs=_dt_inputs,
          raises=[("NotFittedError", lambda A: A.self.attrs["_is_fitted"] is False)],
          ensures=[("forwards-data-and-update_params-to-the-trend-forecaster",
                    lambda A, r: (lambda u: And(len(u) == 1, equiv(u[0].arg(0), A.Z) if u else False,
